@@ -296,6 +296,10 @@ class UAIReader(object):
 
         elif self.network_type == "MARKOV":
             model = MarkovNetwork(self.edges)
+            # Variables that only occur in unary functions have no edge.
+            model.add_nodes_from(
+                [var for var in self.variables if var not in model.nodes()]
+            )
 
             factors = []
             for table in self.tables:
